@@ -7,7 +7,7 @@ From stdpp Require Import base option list numbers fin_maps nmap.
 From Verif.Base Require Import Bytes.
 From Verif.Topics Require Import Predefined.
 From Verif.Codec Require Import Packets Decode Encode RefParse.
-From Verif.Checkers Require Import ChkCodec ChkGw ChkGw2 ChkGw3 ChkCl.
+From Verif.Checkers Require Import ChkCodec ChkGw ChkGw2 ChkGw3 ChkCl ChkCl2.
 From Verif.Gateway Require Import GwTypes GwStep Sound_C07C08C09.
 From Verif.Match Require Import Match.
 From Verif.Util Require Import IdSeq.
@@ -29,4 +29,4 @@ Extraction "model.ml"
   cl_init cl_step cl_run handle_set match_route split join valid_filter
   q_new q_step q_run st_new st_step st_run txn_new txn_step txn_run
   parse_options tool_cfg gateway_starts client_tool_starts parse_line
-  chk_C23c chk_C27 chk_C17 chk_C31c.
+  chk_C23c chk_C27 chk_C17 chk_C31c cmon_init cmon_step.
